@@ -183,6 +183,8 @@ def check_c(text, want, opts):
     -> list[(mechanism, text)]"""
     v = []
     body_text = text
+    text = text.replace("\r\n", "\n")
+    opts = dict(opts, header=opts["header"].replace("\r\n", "\n"), footer=opts["footer"].replace("\r\n", "\n"))
     if opts["header"] and opts["header"].strip() not in text:
         v.append(("convert-header-lost", "header file content is not in the output"))
     if opts["footer"] and opts["footer"].strip() not in text:
@@ -308,8 +310,11 @@ def case_convert(rec, case):
         "tab": r.random() < 0.2,
         "no_length": r.random() < 0.15,
         "no_const": r.random() < 0.2,
-        "header": r.choice(["", "", "/* license */\n#include <stdint.h>\n#include <stddef.h>\n"]),
-        "footer": r.choice(["", "", "/* end */\n"]),
+        # text inputs as another platform's tools write them: CRLF line ends, no final newline, trailing blanks
+        "header": r.choice(["", "", "/* license */\n#include <stdint.h>\n#include <stddef.h>\n",
+                            "/* license */\r\n#include <stdint.h>\r\n#include <stddef.h>\r\n",
+                            "/* license */  \n#include <stdint.h>\n#include <stddef.h>"]),
+        "footer": r.choice(["", "", "/* end */\n", "/* end */\r\n", "/* end */"]),
     }
     if case.get("opts"):
         opts = case["opts"]
@@ -322,10 +327,10 @@ def case_convert(rec, case):
         fh.write(pem)
     if opts["header"]:
         hf = drive.fresh(wd, ".h")
-        open(hf, "w").write(opts["header"])
+        open(hf, "w", newline="").write(opts["header"])
     if opts["footer"]:
         ff = drive.fresh(wd, ".f")
-        open(ff, "w").write(opts["footer"])
+        open(ff, "w", newline="").write(opts["footer"])
     x = r.random()
     route = "sub" if x < 0.008 else "cli" if x < 0.3 else "lib" if x < 0.5 else "cmd"
     exc = None
